@@ -69,6 +69,10 @@ Init ==
                       EXCEPT !.exts = <<ExtType("X", 0, Num("p62", 0)), ExtType("Y", 0, 3), ExtType("Z", 0, 5)>>]>>]
      /\ tag = <<"shape", "extern-align-lcm">>
   \/ /\ input = [ptr |-> 8, mods |-> <<[Module(<<"m">>, <<>>,
+                      <<TypeDef("D", "pub", <<Field("a", "pub", <<>>, TNm("X"), None, FALSE), Field("b", "pub", <<>>, TNm("X"), None, FALSE)>>)>>)
+                      EXCEPT !.exts = <<ExtType("X", 0, Num("p62", 0))>>]>>]
+     /\ tag = <<"shape", "extern-align-twice">>
+  \/ /\ input = [ptr |-> 8, mods |-> <<[Module(<<"m">>, <<>>,
                       <<TypeDef("B", "pub", <<Field("x", "pub", <<>>, TNm("u64"), None, FALSE)>>),
                         TypeDef("C", "pub", <<Field("y", "pub", <<>>, TNm("u64"), None, FALSE)>>),
                         TypeDef("D", "pub", <<Field("a", "pub", <<>>, TNm("B"), None, TRUE), Field("b", "pub", <<>>, TNm("C"), None, TRUE)>>)>>)
